@@ -118,6 +118,26 @@ def resJ : R → Json
 def intListJ (l : List Int) : Json := Json.arr (l.map (fun n => Json.num (JsonNumber.fromInt n))).toArray
 def parseIntList (j : Json) : Option (List Int) := do (← jArr? j).toList.mapM jInt?
 
+/-- [name, dbName|null, depth, perm, ignored] -/
+def parsePField (j : Json) : Option (PField String) := do
+  let a ← jArr? j
+  let db := match arg a 1 with
+    | Json.str s => some s
+    | _ => none
+  some { name := ← jStr? (arg a 0), dbName := db, depth := ← jNat? (arg a 2), perm := ← jBool? (arg a 3), ignored := ← jBool? (arg a 4) }
+
+def optNatJ : Option Nat → Json
+  | some n => natJ n
+  | none => Json.null
+
+/-- null | [null|n, …] -/
+def parseDoc (j : Json) : Option (Option (List (Option Nat))) :=
+  match j with
+  | Json.null => some none
+  | _ => do
+    let a ← jArr? j
+    some (some (a.toList.map (fun x => jNat? x)))
+
 end HC03
 open HC03 in
 def handleC03 (op : String) (args : Array Json) : Option Json := do
@@ -167,6 +187,24 @@ def handleC03 (op : String) (args : Array Json) : Option Json := do
     match createMaps ret p m n with
     | none => some (Json.str "error")
     | some (ks, len) => some (Json.arr #[Json.arr (ks.map optIntJ).toArray, natJ len])
+  | "c03.lookup" =>
+    -- ["c03.lookup", fields, names] → [LookUpField per name, DBNames, FieldsByName per name]
+    let fs ← (← jArr? (arg args 1)).toList.mapM parsePField
+    let names ← (← jArr? (arg args 2)).toList.mapM jStr?
+    let st := parseReg fs
+    some (Json.arr #[Json.arr (names.map (fun n => optNatJ (lookUpField st n))).toArray, strListJ st.dbNames,
+      Json.arr (names.map (fun n => optNatJ ((assoc n st.byName).map (·.1)))).toArray])
+  | "c03.scanloop" =>
+    -- ["c03.scanloop", renew, nKeys, docs] → value handed to each record
+    let renew ← jBool? (arg args 1)
+    let n ← jNat? (arg args 2)
+    let docs ← (← jArr? (arg args 3)).toList.mapM parseDoc
+    let proto := List.replicate n 0
+    some (Json.arr ((scanLoop mergeDoc proto renew proto docs).map natListJ).toArray)
+  | "c03.scandn" =>
+    let ks ← parseIntList (arg args 1)
+    let rows ← parseIntList (arg args 2)
+    some (intListJ (scanUpdateDN ks rows))
   | "c03.batches" =>
     let n ← jNat? (arg args 1)
     let b ← jNat? (arg args 2)
